@@ -382,6 +382,29 @@ def _(c):
     c.no_raise()
 
 
+# a clause that was selected stays selected (and one that was not stays skipped) when the node its condition names is re-assigned inside the block
+OWN_TEXT = ('@case ("{?c0}")\n  c0 = false\n  a int = 1\n  p int = 10\n@else\n  a int = 2\n  q int = 20\n@end\nb int = 3\n'
+            '@case ("{?c1}")\n  x int = 1\n@else\n  c1 = true\n  x int = 2\n  y int = 5\n@end\n'
+            '@case ("{?c2}")\n  c2 = false\n  @case ("{?c3}")\n    z int = 4\n  @end\n  w int = 6\n@end')
+
+
+@contract(DIPC + ".parse", ["C15"], name="DIP.parse[clause-re-assigns-the-node-its-condition-names]")
+def _(c):
+    c.bound = "one text with three blocks whose conditions are plain references to booleans that are re-assigned inside the block; truth values symbolic"
+    c.chunk = 1
+
+    def pre(b):
+        d, env, cs, vs = prestate(b, OWN_TEXT)
+        return dict(args=[d], env=dict(cs=cs))
+    c.scenario("condition-node-re-assigned-inside-its-block", pre)
+    c.ensures("val_of(result, 'a') == ite(cs[0], 1, 2) and (node_of(result, 'p') is not None) == cs[0] and (node_of(result, 'q') is not None) == (not cs[0]) and val_of(result, 'b') == 3",
+              "the-clause-chosen-at-the-keyword-stays-chosen")
+    c.ensures("val_of(result, 'x') == ite(cs[1], 1, 2) and (node_of(result, 'y') is not None) == (not cs[1])", "else-stays-chosen-after-the-condition-became-true")
+    c.ensures("(node_of(result, 'w') is not None) == cs[2] and (node_of(result, 'z') is not None) == (cs[2] and cs[3])", "nested-block-inside-a-chosen-clause")
+    c.ensures("val_of(result, 'c0') == False and val_of(result, 'c1') == True and val_of(result, 'c2') == False", "the-re-assignments-took-effect")
+    c.no_raise()
+
+
 # =====================================================================================================================
 # General form: a prelude (parsed first; the values of some of its nodes are then replaced by symbols), a text parsed
 # on top of that environment, and what the property says about the outcome, written as small expression trees over the
